@@ -451,6 +451,7 @@ def main_check(prop, tier, base_seed, budget, max_runs, workers, verbose=False):
     exit_code = 0
     lines = []
     viol_count = 0
+    unreproduced = []
     if first_violation is not None:
         r = first_violation
         v = r["own"][0]
@@ -467,6 +468,10 @@ def main_check(prop, tier, base_seed, budget, max_runs, workers, verbose=False):
         if not ok and minimised:
             path = write_replay(prop, tier, r["seed"], r["cfg"], r["ops"], v, False)
             ok, out = fresh_replay(path)
+        for _ in range(2):
+            if ok:
+                break
+            ok, out = fresh_replay(path)
         if ok:
             lines.append(f"VIOLATION property={prop} replay={path}")
             lines.append(f"  signature: {v['signature']}  (seed {r['seed']}, {len(ops)} ops)")
@@ -474,7 +479,12 @@ def main_check(prop, tier, base_seed, budget, max_runs, workers, verbose=False):
             viol_count = 1
             exit_code = 1
         else:
-            harness_errors.append(f"violation did not reproduce in a fresh interpreter: {v['signature']}\n{out[-1500:]}")
+            # seen once in a worker, absent in three fresh interpreters replaying
+            # the same history: nothing that can be handed over as a replayable
+            # violation.  Recorded in the evidence, not decided either way.
+            unreproduced.append(dict(signature=v["signature"], seed=r["seed"]))
+            print(f"INCONCLUSIVE: {v['signature']} (seed {r['seed']}) was observed once and did not reproduce "
+                  f"in three fresh interpreters replaying the same history")
     for cf in cross_found[:1]:
         os.makedirs(os.path.join(OUT, "replays"), exist_ok=True)
         path = os.path.join(OUT, "replays", f"{prop}-cross-{cf['idx']}-{cf['hashseed']}.json")
@@ -526,6 +536,7 @@ def main_check(prop, tier, base_seed, budget, max_runs, workers, verbose=False):
                                        "reference model", "geometric descriptor model", "brute-force isomorphism"],
                             stubbed=[]),
             harness_errors=harness_errors[:5],
+            unreproduced_observations=unreproduced,
             exhaustive=False,
         ),
         assumptions=[
